@@ -3,7 +3,7 @@
 # Confirms: patch applies to /repo HEAD, builds, demo test FAILS with it, existing tests of the touched packages pass, demo PASSES without it.
 set -u
 export GOFLAGS=-mod=mod GOPROXY=off
-P=$1; K=$2
+P=$1; K=$2; DK=${3:-$2}   # optional third argument: index under which the change is stored in /verif/seeded
 SRC=/tmp/wt/$P/out/$K
 WT=/tmp/wt/verify_${P}_${K}
 LOG=/tmp/wt/verify_${P}_${K}.log
@@ -35,9 +35,9 @@ git apply -R $SRC/patch.diff
 go test -vet=off -count=1 -run "^$TN\$" ./$DDIR/ >>$LOG 2>&1; WITHOUT=$?
 cd /; git -C /repo worktree remove --force $WT
 if [ $WITH -ne 0 ] && [ $SUITE -eq 0 ] && [ $WITHOUT -eq 0 ]; then
-  D=/verif/seeded/$P-$K; mkdir -p $D
+  D=/verif/seeded/$P-$DK; mkdir -p $D
   cp $SRC/patch.diff $D/patch.diff; cp $DEMO $D/; cp $SRC/notes.md $D/notes.md 2>/dev/null
-  python3 - "$P" "$K" "$DDIR" "$BASE" "$TN" "$PKGS" <<'PY'
+  python3 - "$P" "$DK" "$DDIR" "$BASE" "$TN" "$PKGS" <<'PY'
 import json,sys
 P,K,DDIR,BASE,TN,PKGS=sys.argv[1:7]
 json.dump({"property":P,"id":f"{P}-{K}","demo_dir":DDIR,"demo_test":TN,"verified_against":BASE,"touched_packages":PKGS.split(),
@@ -45,7 +45,7 @@ json.dump({"property":P,"id":f"{P}-{K}","demo_dir":DDIR,"demo_test":TN,"verified
  "ran":["git apply patch.diff","go build ./...",f"go test -run ^{TN}$ ./{DDIR}/ (fails)","go test -skip SeededDemo ./<touched pkgs>/... (pass)","git apply -R",f"go test -run ^{TN}$ ./{DDIR}/ (passes)"]},
  open(f"/verif/seeded/{P}-{K}/meta.json","w"),indent=1)
 PY
-  echo "RESULT $P-$K confirmed base=$BASE demo_dir=$DDIR"
+  echo "RESULT $P-$DK confirmed base=$BASE demo_dir=$DDIR (agent variant $K)"
 else
   echo "RESULT $P-$K REJECTED with=$WITH suite=$SUITE without=$WITHOUT (see $LOG)"
 fi
